@@ -297,6 +297,9 @@ func TypeDefinitionArrayTypeArgument(t dsl.TypeDefinition) string {
 		return "np.void"
 	case *dsl.GenericTypeParameter:
 		return NumpyTypeParameterSyntax(t)
+	case *dsl.NamedType:
+		// e.g. an alias of a fixed-length vector: the annotation takes the scalar type only
+		return TypeArrayTypeArgument(t.Type)
 	default:
 		return TypeDefinitionDTypeSyntax(t)
 	}
